@@ -39,7 +39,7 @@ def n_runs(tier):
 
 def _small_world(rng, backends):
     return world.gen_world_plan(rng, backends=backends, max_images=2, max_lines=10, max_pixels=6,
-                                large=0.0)
+                                large=0.0, huge=0.0)
 
 
 def generate(rng, tier, index):
@@ -47,7 +47,7 @@ def generate(rng, tier, index):
         level = "1.1" if index < SHARDS else "1.5"
         wr = random.Random("c09-exhaustive-" + level)
         wp = world.gen_world_plan(wr, backends=("local",), max_images=1, max_lines=3,
-                                  max_pixels=3, level=level, large=0.0)
+                                  max_pixels=3, level=level, large=0.0, huge=0.0)
         wp["images"] = wp["images"][:1]
         wp["images"][0].update(lines=3, pixels=2)
         return {"scenario": "S0", "world": wp, "location": ["user", "adjacent"][index % 2],
@@ -59,6 +59,7 @@ def generate(rng, tier, index):
         n_k = 16 if tier == "quick" else 40
         ks = [{"abs": 0}, {"abs": 1}, {"abs": 2}, {"fromend": 1}, {"fromend": 0}]
         ks += [{"struct": rng.random()} for _ in range(n_k // 3)]
+        ks += [{"multibyte": rng.random()}, {"multibyte": rng.random()}]
         ks += [{"frac": rng.random()} for _ in range(n_k - len(ks))]
         return {"scenario": "S0", "world": wp, "ks": ks,
                 "location": rng.choice(["user", "user", "adjacent", "both"]),
@@ -73,7 +74,7 @@ def generate(rng, tier, index):
         plan["cli_image"] = rng.randrange(len(wp["images"]))
         plan["at"] = rng.choice([{"abs": 0}, {"abs": 1}, {"fromend": 1}, {"fromend": 0},
                                  "close", {"frac": rng.random()}, {"frac": rng.random()},
-                                 {"struct": rng.random()},
+                                 {"struct": rng.random()}, {"multibyte": rng.random()},
                                  {"event": rng.randrange(0, 8)}, {"event": rng.randrange(0, 40)}])
         if "event" in plan["at"]:
             # crash just before the n-th disk-mutating operation of the writer (mkdir, open, each
@@ -115,7 +116,14 @@ def structural_offsets(doc):
     out = {i + 1 for i, c in enumerate(doc) if c in b'{",[]}:.-+eE'}
     for m in re.finditer(rb"null|true|false|NaN|Infinity", doc):
         out.update(range(m.start() + 1, m.end()))
+    out.update(multibyte_offsets(doc))
     return sorted(out)
+
+
+def multibyte_offsets(doc):
+    """prefix lengths that end between the bytes of a multi-byte UTF-8 character (documents need
+    not be pure ASCII: units such as 'Hz/\u00b5s', non-ASCII product paths)"""
+    return sorted({i for i, ch in enumerate(doc) if 0x80 <= ch < 0xC0})
 
 
 def resolve_k(spec, doc):
@@ -128,6 +136,11 @@ def resolve_k(spec, doc):
         return max(n - spec["fromend"], 0)
     if "frac" in spec:
         return int(spec["frac"] * (n + 1)) % (n + 1)
+    if "multibyte" in spec:
+        mo = multibyte_offsets(doc)
+        if mo:
+            return mo[int(spec["multibyte"] * len(mo)) % len(mo)]
+        spec = {"struct": spec["multibyte"]}
     if "struct" in spec:
         so = structural_offsets(doc)
         return so[int(spec["struct"] * len(so)) % len(so)] if so else 0
@@ -146,6 +159,10 @@ def k_class(k, n):
     if k >= n - 16:
         return "last16"
     return "interior"
+
+
+class CliFailed(RuntimeError):
+    pass
 
 
 class Ctx:
@@ -287,7 +304,11 @@ def _writer(c, kind, image=None):
     if kind == "cli":
         rc = c.w.cli(c.prod.images[image or 0])
         if rc != 0:
-            raise RuntimeError(f"cli exit status {rc}")
+            # the tool reports failure through its exit status (it does so for an injected
+            # disk-full, and - on the pinned tree - for every product path that contains a space
+            # or a non-ASCII character); the property is about the opens that follow
+            c.bump("cli-exit-status-nonzero")
+            raise CliFailed(f"cli exit status {rc}")
         return "cli"
     c.w.open(create_cache=True, use_cache=False)
     return "option"
@@ -325,7 +346,9 @@ def run_s1_s2(c, ref):
         raise
     except Exception as e:  # noqa: BLE001 - with ENOSPC the creating call may raise
         outcome = "raised:" + type(e).__name__
-        if scen == "S1" or not SIM.write_plan.get("fired"):
+        if isinstance(e, CliFailed):
+            pass
+        elif scen == "S1" or not SIM.write_plan.get("fired"):
             c.bad("writer-raised-without-fault", f"{scen}:{writer}:{type(e).__name__}",
                   error=exc_text(e))
     finally:
